@@ -4,6 +4,8 @@ package main
 
 import (
 	"fmt"
+	"math/rand"
+	"regexp"
 	"sort"
 	"strings"
 )
@@ -211,7 +213,22 @@ func projEquivRaw(o outcome) string {
 	}
 	s := fmt.Sprintf("return %s at position %s with tokens %s after successes [%s]", o.Kind, o.Pos, o.Tok, strings.Join(ev, " ; "))
 	s = reLoop.ReplaceAllString(s, "loop")
-	return rePD.ReplaceAllString(s, "$1")
+	return renumberLoops(rePD.ReplaceAllString(s, "$1"))
+}
+
+var reLoopTag = regexp.MustCompile(`([IJ]|loop\()(\d+)`)
+
+// renumberLoops numbers repetition invariants in order of appearance: the plain
+// and the switched parser meet different (failed) repetitions on the way.
+func renumberLoops(s string) string {
+	m := map[string]string{}
+	return reLoopTag.ReplaceAllStringFunc(s, func(x string) string {
+		sub := reLoopTag.FindStringSubmatch(x)
+		if _, ok := m[sub[2]]; !ok {
+			m[sub[2]] = fmt.Sprint(len(m) + 1)
+		}
+		return sub[1] + m[sub[2]]
+	})
 }
 
 // expandRunes turns one outcome whose advance terms carry sets of possible
@@ -398,7 +415,13 @@ func checkC02(c *Check) {
 	if c.Tier == "thorough" {
 		optSets = append(optSets, modelOpts{Ast: false, Switch: true}, modelOpts{Ast: false, Switch: true, Inline: true})
 	}
-	rs, probs := runSwitchSuite(r, switchSuite(), optSets)
+	swSpecs := switchSuite()
+	nRand := 40
+	if c.Tier == "thorough" {
+		nRand = 400
+	}
+	swSpecs = append(swSpecs, randomSwitchModels(c.Seed+3, nRand)...)
+	rs, probs := runSwitchSuite(r, swSpecs, optSets)
 	for _, p := range probs {
 		c.Und("R-anchor", "tree.(*Tree).Compile/-switch block", "", p)
 	}
@@ -538,4 +561,61 @@ func inlineSuite() []modelSpec {
 		return 0
 	}})
 	return s
+}
+
+// randomSwitchModels: choices of 3–5 alternatives, each starting with its own
+// letter group in one of a dozen shapes (so that FIRST sets are mostly
+// disjoint and the rewrite fires), drawn with a seed.
+func randomSwitchModels(seed int64, n int) []swModel {
+	rng := rand.New(rand.NewSource(seed))
+	groups := [][2]string{{"a", "b"}, {"d", "e"}, {"g", "h"}, {"j", "k"}, {"m", "n"}, {"p", "r"}}
+	type shape struct {
+		name  string
+		build func(m *model, c, d string) *Obj
+	}
+	e := func(m *model) *Obj { return m.opaqueChild(true, false) }
+	shapes := []shape{
+		{"'c' e", func(m *model, c, d string) *Obj { return m.seq(m.char(c), e(m)) }},
+		{"[c-d] e", func(m *model, c, d string) *Obj { return m.seq(m.rng(c, d), e(m)) }},
+		{"<'c'> e", func(m *model, c, d string) *Obj { return m.seq(m.push(m.char(c)), e(m)) }},
+		{"('c' e / 'd' e) 'q'", func(m *model, c, d string) *Obj {
+			return m.seq(m.alt(m.seq(m.char(c), e(m)), m.seq(m.char(d), e(m))), m.char("q"))
+		}},
+		{"([c-d] 'q' / 'c' 'z')", func(m *model, c, d string) *Obj {
+			return m.alt(m.seq(m.rng(c, d), m.char("q")), m.seq(m.char(c), m.char("z")))
+		}},
+		{"!'z' 'c' e", func(m *model, c, d string) *Obj { return m.seq(m.peekNot(m.char("z")), m.char(c), e(m)) }},
+		{"&[c-d] 'c' e", func(m *model, c, d string) *Obj { return m.seq(m.peekFor(m.rng(c, d)), m.char(c), e(m)) }},
+		{"'c'+ e", func(m *model, c, d string) *Obj { return m.seq(m.plus(m.char(c)), e(m)) }},
+		{"'c' 'd'* e", func(m *model, c, d string) *Obj { return m.seq(m.char(c), m.star(m.char(d)), e(m)) }},
+		{"'c' (e / e)", func(m *model, c, d string) *Obj { return m.seq(m.char(c), m.alt(e(m), e(m))) }},
+		{"[c-d]* 'x'", func(m *model, c, d string) *Obj { return m.seq(m.star(m.rng(c, d)), m.char("x")) }},
+		{"'c'? 'd' e", func(m *model, c, d string) *Obj { return m.seq(m.query(m.char(c)), m.char(d), e(m)) }},
+		{"e{c}", func(m *model, c, d string) *Obj { return opq(m, c, true) }},
+		{"e{c,d} e", func(m *model, c, d string) *Obj { return m.seq(opq(m, c+d, true), e(m)) }},
+		{"'c'", func(m *model, c, d string) *Obj { return m.char(c) }},
+	}
+	var out []swModel
+	for i := 0; i < n; i++ {
+		k := 3 + rng.Intn(3)
+		perm := rng.Perm(len(groups))[:k]
+		var picks []int
+		var names []string
+		for _, g := range perm {
+			si := rng.Intn(len(shapes))
+			picks = append(picks, si)
+			nm := strings.NewReplacer("c", groups[g][0], "d", groups[g][1]).Replace(shapes[si].name)
+			names = append(names, nm)
+		}
+		perm2, picks2 := append([]int{}, perm...), append([]int{}, picks...)
+		out = append(out, swModel{Name: fmt.Sprintf("#%d %s", i, strings.Join(names, " / ")), Hop: "random choices", Build: func(m *model) int {
+			var alts []*Obj
+			for j, g := range perm2 {
+				alts = append(alts, shapes[picks2[j]].build(m, groups[g][0], groups[g][1]))
+			}
+			m.addRule("S", m.alt(alts...), 1)
+			return 0
+		}})
+	}
+	return out
 }
